@@ -252,7 +252,7 @@ def branch_target(i):
     return None
 
 
-_DEBUG_RUNS = [0]
+_DEBUG_RUNS = [0, 0]
 
 
 def transpile_and_monitor(sub, debug):
@@ -262,7 +262,19 @@ def transpile_and_monitor(sub, debug):
     old = list(sub.instructions)
     old_br = [(t, branch_target(i), type(i)) for t, i in enumerate(old) if branch_target(i) is not None]
     shared_objects = len({id(i) for i in old}) != len(old)
-    new_sub = NVSubroutineTranspiler(sub, debug=debug).transpile()
+    _DEBUG_RUNS[1] += 1
+    if _DEBUG_RUNS[1] % 2 == 0:
+        bytes(sub)      # the vanilla subroutine had been encoded once (logged, sent to a vanilla node) before it is transpiled
+    if _DEBUG_RUNS[1] % 5 == 3:
+        # the transpiler object is created first, the program is put into the subroutine afterwards (a compiler pipeline that
+        # wires its passes up before the builder has finished): what counts is the subroutine at the time of transpile()
+        full = list(sub.instructions)
+        sub.instructions = full[:1]
+        tr_ = NVSubroutineTranspiler(sub, debug=debug)
+        sub.instructions = full
+        new_sub = tr_.transpile()
+    else:
+        new_sub = NVSubroutineTranspiler(sub, debug=debug).transpile()
     new = list(new_sub.instructions)      # in memory the debug comments occupy positions (and branch targets count them)
     if shared_objects:
         # one object listed at several positions: identity cannot anchor the structural monitor; the differential execution decides
@@ -352,6 +364,10 @@ def transpile_and_monitor(sub, debug):
             new_sub = deserialize(raw, flavour=codec.flavour_obj("nv"))
         # (every other debug listing is executed as the object the transpiler returned, comments and all: its branch targets
         # count the comments, and the executor steps over them)
+    elif _DEBUG_RUNS[1] % 4 in (0, 1):
+        # half of the plain results are executed the way a node gets them: encoded and decoded with the NV flavour
+        from netqasm.lang.parsing import deserialize
+        new_sub = deserialize(bytes(new_sub), flavour=codec.flavour_obj("nv"))
     return new_sub, None, {"branches": nbr, "expanded": bool(expanded)}
 
 
